@@ -41,13 +41,14 @@ func (s *Str) UnmarshalJSON(b []byte) error {
 }
 
 // T describes a type.
-//   nullary:  Any Unit Undef Default Numeric Scalar ScalarData Binary
-//   Boolean (B: -1 unset, 0 false, 1 true), Integer (Lo,Hi), Float (FLo,FHi float64 bits),
-//   String, StringSz (Lo,Hi), StringVal (S), Enum (Strs, CI), Pattern (Strs), Regexp (S),
-//   Collection (Lo,Hi), Array (Ts[0], Lo,Hi), Hash (Ts[0],Ts[1], Lo,Hi),
-//   Tuple (Ts, HasSize, Lo,Hi = the given size when HasSize), Struct (Strs names, Opt, Ts),
-//   Variant (Ts), Optional NotUndef Type Sensitive Iterable (Ts[0]),
-//   Text (S: a type expression that is parsed; not in the Rocq model)
+//
+//	nullary:  Any Unit Undef Default Numeric Scalar ScalarData Binary
+//	Boolean (B: -1 unset, 0 false, 1 true), Integer (Lo,Hi), Float (FLo,FHi float64 bits),
+//	String, StringSz (Lo,Hi), StringVal (S), Enum (Strs, CI), Pattern (Strs), Regexp (S),
+//	Collection (Lo,Hi), Array (Ts[0], Lo,Hi), Hash (Ts[0],Ts[1], Lo,Hi),
+//	Tuple (Ts, HasSize, Lo,Hi = the given size when HasSize), Struct (Strs names, Opt, Ts),
+//	Variant (Ts), Optional NotUndef Type Sensitive Iterable (Ts[0]),
+//	Text (S: a type expression that is parsed; not in the Rocq model)
 type T struct {
 	K       string `json:"k"`
 	Lo      int64  `json:"lo,omitempty"`
@@ -64,10 +65,11 @@ type T struct {
 }
 
 // V describes a value.
-//   Undef Default Bool(B) Int(I) Float(F bits) Str(S) Regexp(S) Binary(S) Timespan(I ns)
-//   Timestamp(I sec, Ns) Arr(Vs) Hash(Vs = k0,v0,k1,v1,...) Entry(Vs = k,v) Sensitive(Vs[0]) Type(T)
-//   outside the Rocq model: Uri(S) SemVer(S) SemVerRange(S) Object(S = name of a harness object type, Vs = arguments)
-//   MutHash(Vs) (a *MutableHashValue)
+//
+//	Undef Default Bool(B) Int(I) Float(F bits) Str(S) Regexp(S) Binary(S) Timespan(I ns)
+//	Timestamp(I sec, Ns) Arr(Vs) Hash(Vs = k0,v0,k1,v1,...) Entry(Vs = k,v) Sensitive(Vs[0]) Type(T)
+//	outside the Rocq model: Uri(S) SemVer(S) SemVerRange(S) Object(S = name of a harness object type, Vs = arguments)
+//	MutHash(Vs) (a *MutableHashValue)
 type V struct {
 	K  string `json:"k"`
 	B  bool   `json:"b,omitempty"`
@@ -87,23 +89,27 @@ var maxFloatBits = math.Float64bits(math.MaxFloat64)
 
 // ---------------------------------------------------------------- constructors of descriptions
 
-func tN(k string) *T                  { return &T{K: k} }
-func tBool(b int) *T                  { return &T{K: "Boolean", B: b} }
-func tInt(lo, hi int64) *T            { return &T{K: "Integer", Lo: lo, Hi: hi} }
-func tFloat(lo, hi float64) *T        { return &T{K: "Float", FLo: math.Float64bits(lo), FHi: math.Float64bits(hi)} }
-func tStrSz(lo, hi int64) *T          { return &T{K: "StringSz", Lo: lo, Hi: hi} }
-func tStrVal(s string) *T             { return &T{K: "StringVal", S: Str(s)} }
-func tEnum(ci bool, vs ...string) *T  { return &T{K: "Enum", CI: ci, Strs: strs(vs)} }
-func tPattern(vs ...string) *T        { return &T{K: "Pattern", Strs: strs(vs)} }
-func tRegexp(p string) *T             { return &T{K: "Regexp", S: Str(p)} }
-func tColl(lo, hi int64) *T           { return &T{K: "Collection", Lo: lo, Hi: hi} }
-func tArr(e *T, lo, hi int64) *T      { return &T{K: "Array", Ts: []*T{e}, Lo: lo, Hi: hi} }
-func tHash(k, v *T, lo, hi int64) *T  { return &T{K: "Hash", Ts: []*T{k, v}, Lo: lo, Hi: hi} }
-func tTuple(ts ...*T) *T              { return &T{K: "Tuple", Ts: ts} }
-func tTupleSz(lo, hi int64, ts ...*T) *T { return &T{K: "Tuple", Ts: ts, HasSize: true, Lo: lo, Hi: hi} }
-func tVariant(ts ...*T) *T            { return &T{K: "Variant", Ts: ts} }
-func tUn(k string, t *T) *T           { return &T{K: k, Ts: []*T{t}} }
-func tText(s string) *T               { return &T{K: "Text", S: Str(s)} }
+func tN(k string) *T       { return &T{K: k} }
+func tBool(b int) *T       { return &T{K: "Boolean", B: b} }
+func tInt(lo, hi int64) *T { return &T{K: "Integer", Lo: lo, Hi: hi} }
+func tFloat(lo, hi float64) *T {
+	return &T{K: "Float", FLo: math.Float64bits(lo), FHi: math.Float64bits(hi)}
+}
+func tStrSz(lo, hi int64) *T         { return &T{K: "StringSz", Lo: lo, Hi: hi} }
+func tStrVal(s string) *T            { return &T{K: "StringVal", S: Str(s)} }
+func tEnum(ci bool, vs ...string) *T { return &T{K: "Enum", CI: ci, Strs: strs(vs)} }
+func tPattern(vs ...string) *T       { return &T{K: "Pattern", Strs: strs(vs)} }
+func tRegexp(p string) *T            { return &T{K: "Regexp", S: Str(p)} }
+func tColl(lo, hi int64) *T          { return &T{K: "Collection", Lo: lo, Hi: hi} }
+func tArr(e *T, lo, hi int64) *T     { return &T{K: "Array", Ts: []*T{e}, Lo: lo, Hi: hi} }
+func tHash(k, v *T, lo, hi int64) *T { return &T{K: "Hash", Ts: []*T{k, v}, Lo: lo, Hi: hi} }
+func tTuple(ts ...*T) *T             { return &T{K: "Tuple", Ts: ts} }
+func tTupleSz(lo, hi int64, ts ...*T) *T {
+	return &T{K: "Tuple", Ts: ts, HasSize: true, Lo: lo, Hi: hi}
+}
+func tVariant(ts ...*T) *T  { return &T{K: "Variant", Ts: ts} }
+func tUn(k string, t *T) *T { return &T{K: k, Ts: []*T{t}} }
+func tText(s string) *T     { return &T{K: "Text", S: Str(s)} }
 
 type member struct {
 	name string
@@ -129,27 +135,27 @@ func strs(vs []string) []Str {
 	return r
 }
 
-func vUndef() *V                { return &V{K: "Undef"} }
-func vDefault() *V              { return &V{K: "Default"} }
-func vBool(b bool) *V           { return &V{K: "Bool", B: b} }
-func vInt(i int64) *V           { return &V{K: "Int", I: i} }
-func vFloat(f float64) *V       { return &V{K: "Float", F: math.Float64bits(f)} }
-func vFloatBits(b uint64) *V    { return &V{K: "Float", F: b} }
-func vStr(s string) *V          { return &V{K: "Str", S: Str(s)} }
-func vRegexp(s string) *V       { return &V{K: "Regexp", S: Str(s)} }
-func vBinary(s string) *V       { return &V{K: "Binary", S: Str(s)} }
-func vTimespan(ns int64) *V     { return &V{K: "Timespan", I: ns} }
-func vTimestamp(s, ns int64) *V { return &V{K: "Timestamp", I: s, Ns: ns} }
-func vArr(vs ...*V) *V          { return &V{K: "Arr", Vs: vs} }
-func vHash(kvs ...*V) *V        { return &V{K: "Hash", Vs: kvs} }
-func vEntry(k, v *V) *V         { return &V{K: "Entry", Vs: []*V{k, v}} }
-func vSensitive(v *V) *V        { return &V{K: "Sensitive", Vs: []*V{v}} }
-func vType(t *T) *V             { return &V{K: "Type", T: t} }
-func vUri(s string) *V          { return &V{K: "Uri", S: Str(s)} }
-func vSemVer(s string) *V       { return &V{K: "SemVer", S: Str(s)} }
-func vSemVerRange(s string) *V  { return &V{K: "SemVerRange", S: Str(s)} }
+func vUndef() *V                       { return &V{K: "Undef"} }
+func vDefault() *V                     { return &V{K: "Default"} }
+func vBool(b bool) *V                  { return &V{K: "Bool", B: b} }
+func vInt(i int64) *V                  { return &V{K: "Int", I: i} }
+func vFloat(f float64) *V              { return &V{K: "Float", F: math.Float64bits(f)} }
+func vFloatBits(b uint64) *V           { return &V{K: "Float", F: b} }
+func vStr(s string) *V                 { return &V{K: "Str", S: Str(s)} }
+func vRegexp(s string) *V              { return &V{K: "Regexp", S: Str(s)} }
+func vBinary(s string) *V              { return &V{K: "Binary", S: Str(s)} }
+func vTimespan(ns int64) *V            { return &V{K: "Timespan", I: ns} }
+func vTimestamp(s, ns int64) *V        { return &V{K: "Timestamp", I: s, Ns: ns} }
+func vArr(vs ...*V) *V                 { return &V{K: "Arr", Vs: vs} }
+func vHash(kvs ...*V) *V               { return &V{K: "Hash", Vs: kvs} }
+func vEntry(k, v *V) *V                { return &V{K: "Entry", Vs: []*V{k, v}} }
+func vSensitive(v *V) *V               { return &V{K: "Sensitive", Vs: []*V{v}} }
+func vType(t *T) *V                    { return &V{K: "Type", T: t} }
+func vUri(s string) *V                 { return &V{K: "Uri", S: Str(s)} }
+func vSemVer(s string) *V              { return &V{K: "SemVer", S: Str(s)} }
+func vSemVerRange(s string) *V         { return &V{K: "SemVerRange", S: Str(s)} }
 func vObject(tn string, args ...*V) *V { return &V{K: "Object", S: Str(tn), Vs: args} }
-func vMutHash(kvs ...*V) *V     { return &V{K: "MutHash", Vs: kvs} }
+func vMutHash(kvs ...*V) *V            { return &V{K: "MutHash", Vs: kvs} }
 
 // ---------------------------------------------------------------- predicates on descriptions
 
@@ -204,7 +210,7 @@ func (v *V) inModel() bool {
 			return true
 		}
 		return false
-	}, func(t *T) bool { return t.K == "Text" })
+	}, func(t *T) bool { return t.K == "Text" || t.K == "Struct" })
 }
 
 // expected to have a hash key: everything but Sensitive and Object values (inside or at the top)
@@ -354,7 +360,7 @@ func (t *T) wellFormed() bool {
 		if t.Lo > t.Hi {
 			return false
 		}
-		if t.K == "StringSz" && t.Lo == 0 && t.Hi == maxI {
+		if t.K == "StringSz" && (t.Lo == 0 || t.Lo == minI) && t.Hi == maxI {
 			return false // NewStringType returns String
 		}
 	case "Float":
@@ -690,7 +696,7 @@ func (t *T) gallina() string {
 			// the given-or-actual size
 			lo, hi = int64(len(t.Ts)), int64(len(t.Ts))
 		}
-		return fmt.Sprintf("(TTuple %s %s %s %s)", subs(), lib.GBool(t.HasSize), lib.GZ(lo), lib.GZ(hi))
+		return fmt.Sprintf("(TTuple %s %s %s)", subs(), lib.GZ(lo), lib.GZ(hi))
 	case "Struct":
 		ms := make([]string, len(t.Ts))
 		for i := range t.Ts {
